@@ -209,7 +209,7 @@ func instructionSplit(b []byte) (string, []byte, error) {
 		return "", nil, fmt.Errorf("zero-length argument")
 	}
 	bSz := len(b)
-	if bSz < sz {
+	if bSz < sz+1 {
 		return "", nil, fmt.Errorf("corrupt instruction, len %v less than symbol length: %v", bSz, sz)
 	}
 	r := string(b[1 : 1+sz])
